@@ -21,6 +21,10 @@
 (*   Law.before / Law.after / Law.contains  the three-way shift law, from the *)
 (*                   logged pre-positions, spot and size of the change        *)
 (*   Law.shape       pre and post live trees cannot be walked in parallel     *)
+(*   Derived.loc/.bloc/.pars/.parsUnshared/.flags  cached derived answers of   *)
+(*                   every node = answers of a tree freshly built from the    *)
+(*                   new source; Derived.parsText  reported pars() spans      *)
+(*                   begin with "(" and end with ")" in the new text          *)
 (*   G.ModelAgree    observed positions = what TriviaSplice of Offset.tla     *)
 (*                   computes for the instance (rule table)                   *)
 (*   G.OnText        observed positions = Scan of the instance's new text     *)
@@ -67,7 +71,7 @@ LawWalk(x, y, e) ==
 
 (* ------------------------------------------------------------------------ *)
 (* direction G: the event concretises an instance of Offset.tla              *)
-ModelTree(m) == [n |-> m.n, par |-> m.par, kind |-> m.kind, sep |-> m.sep]
+ModelTree(m) == [n |-> m.n, par |-> m.par, kind |-> m.kind, sep |-> m.sep, wrap |-> m.wrap]
 ModelResult(m) == Result(MkInst(ModelTree(m)), m.gaps, m.g, m.p, m.q, m.ins)
 ObsPos(m) == [k \in 1..m.n |-> <<m.obs[k][1], m.obs[k][2], m.obs[k][3], m.obs[k][4]>>]
 
@@ -76,6 +80,21 @@ ModelClauses(e) ==
   ELSE LET r == ModelResult(e.m) IN
        { Cl("G.ModelAgree", ObsPos(e.m) = r.pos1),
          Cl("G.OnText", ObsPos(e.m) = r.want) }
+
+(* ------------------------------------------------------------------------ *)
+(* derived, cached answers (the cache of Offset.tla made observable): after   *)
+(* the edit every node's loc / bloc / pars() / pars(shared=False) / delimiter *)
+(* flags must be what a tree freshly built from the new source answers (no    *)
+(* cached extent differs from the recomputed one), whatever was cached before *)
+(* the edit (e.warm); and every reported grouping-parentheses span must start *)
+(* with "(" and end with ")" in the new text (stdlib fact about the span).    *)
+Accessors == {"loc", "bloc", "pars", "parsUnshared", "flags"}
+Ans(d, k) == IF k \in DOMAIN d THEN d[k] ELSE 0      \* id of the hash-consed answer vector of accessor k
+DerivedClauses(e) ==
+  IF ~e.hasDerived THEN {}
+  ELSE LET d == e.post.d IN
+       {Cl("Derived." \o k, Ans(d.live, k) = Ans(d.fresh, k)) : k \in Accessors}
+       \cup {Cl("Derived.parsText", \A i \in 1..Len(d.parsEnds) : d.parsEnds[i] = <<40, 41>>)}
 
 (* ------------------------------------------------------------------------ *)
 InSync(s) == s.srcOk /\ s.liveP = s.srcP
@@ -97,6 +116,7 @@ Clauses(s, e) ==
                \cup (LET f == LawWalk(s.liveP, t.liveP, e)
                      IN {Cl(c, c \notin f) : c \in {"Law.before", "Law.after", "Law.contains", "Law.shape"}})
                \cup ModelClauses(e)
+               \cup DerivedClauses(e)
           ELSE {})
 
 ClassOf(s, e) == IF e.call = "splice" THEN e.cls ELSE "?"
